@@ -19,6 +19,7 @@ import (
 
 	"verifsim/core"
 	"verifsim/h/rows"
+	"verifsim/simrt"
 )
 
 type H struct{}
@@ -77,6 +78,7 @@ type point struct {
 	ts     int64
 	value  float64
 	order  int // write order
+	epoch  int // number of flush / compact / restart operations before the write
 }
 
 func (H) Gen(prop string, rng *rand.Rand, tier string) *core.Plan {
@@ -124,6 +126,9 @@ type run struct {
 	shardOf []int
 	points  []point
 	flushes int
+	epoch   int
+
+	pendingFirstLast func() // first C11/first-last-order observation of the run (known finding)
 }
 
 func atoi(s string) int64 {
@@ -169,6 +174,7 @@ func (H) Run(c *core.RunCtx) {
 		case "compact":
 			r.compact()
 		case "restart":
+			r.epoch++
 			r.n.Engine.Close()
 			c.Sim.Fault("close-reopen")
 			n2, err := Start(c, c.Dir)
@@ -182,6 +188,9 @@ func (H) Run(c *core.RunCtx) {
 		case "qflush":
 			r.query(op, true)
 		}
+	}
+	if r.pendingFirstLast != nil && !c.Violated() && c.Res.Anomaly == "" {
+		r.pendingFirstLast()
 	}
 }
 
@@ -211,7 +220,7 @@ func (r *run) write(op core.Op) {
 			}
 			v := float64(1 + rng.Intn(40))
 			fs = append(fs, rows.Field{Name: spec.name, Type: spec.typ, Value: v})
-			r.points = append(r.points, point{series: si, field: fi, ts: ts, value: v, order: len(r.points)})
+			r.points = append(r.points, point{series: si, field: fi, ts: ts, value: v, order: len(r.points), epoch: r.epoch})
 		}
 		byShard[r.shardOf[si]] = append(byShard[r.shardOf[si]], rows.Point{Name: "m", Tags: r.series[si].tags(), Timestamp: ts, Fields: fs})
 	}
@@ -226,14 +235,26 @@ func (r *run) write(op core.Op) {
 	}
 }
 
-// flush: the steps of the flush checker (metadata -> shard index -> family data), driven from here.
+// flush: the steps of the flush checker (metadata -> shard index -> family data), driven from here, or -
+// every other time - a flush job of the engine's real flush checker (which also garbage collects the write
+// buffers of flushed memory databases).
 func (r *run) flush() {
 	db, ok := r.n.Engine.GetDatabase(r.db)
 	if !ok {
 		return
 	}
 	r.flushes++
+	r.epoch++
 	r.c.Sim.Fault("flush")
+	if r.flushes%2 == 0 {
+		r.c.Sim.Probe("flush-by-checker")
+		_ = db.Flush()
+		simrt.Sleep(time.Millisecond)
+		for i := 0; i < 3000 && tsdb.VerifFlushInFlight(r.n.Engine) > 0; i++ {
+			simrt.Sleep(time.Millisecond)
+		}
+		return
+	}
 	if err := db.FlushMeta(); err != nil {
 		r.c.Anomaly("flush meta: %v", err)
 		return
@@ -256,6 +277,7 @@ func (r *run) flush() {
 }
 
 func (r *run) compact() {
+	r.epoch++
 	r.c.Sim.Fault("compact")
 	stores := kv.GetStoreManager().GetStores()
 	sort.Slice(stores, func(i, j int) bool { return stores[i].Name() < stores[j].Name() })
@@ -655,6 +677,12 @@ func (r *run) compare(sqlText string, q queryDef, exp map[string]*expGroup, rs *
 	c := r.c
 	prop := c.Plan.Prop
 	fname := fieldSpecs[q.field].name
+	var firstLastFlag func() // reported at the end of the run: it must never hide another violation
+	defer func() {
+		if firstLastFlag != nil && r.pendingFirstLast == nil {
+			r.pendingFirstLast = firstLastFlag
+		}
+	}()
 	got := map[string]*commonmodels.Series{}
 	for _, s := range rs.Series {
 		var key []string
@@ -717,6 +745,20 @@ func (r *run) compare(sqlText string, q queryDef, exp map[string]*expGroup, rs *
 				if !found {
 					c.Violate(prop+"/value-wrong", "%s: group %v slot %s = %v, not one of the written values %v", sqlText, e.tags, fmtTime(s), gv, cands)
 					return
+				}
+				// one series per group: first = first written point of the earliest storage slot of the bucket,
+				// last = last written point of the latest one - whatever was flushed when
+				if prop == "C11" && oneSeriesPerGroup(q) {
+					if strict := strictFirstLast(fieldSpecs[q.field].agg, e.values[s]); gv != strict {
+						if sameSlotAndEpoch(e.values[s]) {
+							// one storage slot, written between the same two flushes: combined by write()/merge() alone
+							c.Violate(prop+"/value-wrong", "%s: group %v slot %s = %v, the %s written value of that storage slot is %v (written values %v)", sqlText, e.tags, fmtTime(s), gv, fieldSpecs[q.field].agg, strict, cands)
+							return
+						}
+						if firstLastFlag == nil {
+							firstLastFlag = func() { c.Violate(prop+"/first-last-order", "%s: group %v slot %s = %v, the %s written value of the bucket is %v (written values %v)", sqlText, e.tags, fmtTime(s), gv, fieldSpecs[q.field].agg, strict, cands) }
+						}
+					}
 				}
 			}
 		}
@@ -801,4 +843,41 @@ func (r *run) unknownKeys(q queryDef, upto int) []string {
 	}
 	sort.Strings(ks)
 	return ks
+}
+
+func oneSeriesPerGroup(q queryDef) bool {
+	for _, g := range q.groupBy {
+		if g == "id" {
+			return true
+		}
+	}
+	return false
+}
+
+// strictFirstLast: the points of one bucket of one series; first = first written point of the earliest
+// storage slot, last = last written point of the latest storage slot.
+func strictFirstLast(agg string, ps []point) float64 {
+	best := ps[0]
+	for _, p := range ps[1:] {
+		ps0, ps1 := best.ts/10000, p.ts/10000
+		if agg == "first" {
+			if ps1 < ps0 || (ps1 == ps0 && p.order < best.order) {
+				best = p
+			}
+		} else {
+			if ps1 > ps0 || (ps1 == ps0 && p.order > best.order) {
+				best = p
+			}
+		}
+	}
+	return best.value
+}
+
+func sameSlotAndEpoch(ps []point) bool {
+	for _, p := range ps[1:] {
+		if p.ts/10000 != ps[0].ts/10000 || p.epoch != ps[0].epoch {
+			return false
+		}
+	}
+	return true
 }
